@@ -60,12 +60,25 @@ func runC10(c *runCtx) {
 			length = c.rng.rangeInt(0, 4)
 		}
 		tags := map[string]int{}
+		var seq []bug.Operation
 		for k := 0; k < length; k++ {
 			op, isComment, tag := g.next()
-			b.Append(op)
+			seq = append(seq, op)
 			g.record(op, isComment)
 			tags[tag]++
 			c.count("op=" + tag)
+		}
+		// metadata for an operation that only comes later in the order (a concurrent edit sorted in
+		// front of its target): a no-op, whichever way the bug is compiled
+		if len(seq) >= 2 && c.rng.chance(1, 3) {
+			at := c.rng.intn(len(seq) - 1)
+			target := seq[at+1+c.rng.intn(len(seq)-at-1)].Id()
+			early := dag.NewSetMetadataOp[*bug.Snapshot](bug.SetMetadataOp, pickOne(c.rng, authors), 1_600_000_000, target, randMd(c.rng, 1, 1))
+			seq = append(seq[:at], append([]bug.Operation{early}, seq[at:]...)...)
+			c.count("op=setMetadata:later-target")
+		}
+		for _, op := range seq {
+			b.Append(op)
 		}
 		var ops []dag.Operation
 		for _, o := range b.Operations() {
@@ -330,5 +343,33 @@ func c10Oracle(c *runCtx, id int, ops []dag.Operation, s *bug.Snapshot) {
 	}
 	if len(s.Timeline) != nTimeline {
 		fail("C10/timeline", fmt.Sprintf("timeline has %d entries for %d state-changing operations", len(s.Timeline), nTimeline), nil)
+	}
+	// metadata attached later: only to an operation that is already there, never over an existing key
+	wantExtra := map[string]map[string]string{}
+	seen := map[string]dag.Operation{}
+	for _, op := range ops {
+		if sm, ok := op.(*dag.SetMetadataOperation[*bug.Snapshot]); ok {
+			if t, ok := seen[string(sm.Target)]; ok {
+				own := ownMetadata(t)
+				for k, v := range sm.NewMetadata {
+					if _, has := own[k]; has {
+						continue
+					}
+					if wantExtra[string(sm.Target)] == nil {
+						wantExtra[string(sm.Target)] = map[string]string{}
+					}
+					if _, has := wantExtra[string(sm.Target)][k]; !has {
+						wantExtra[string(sm.Target)][k] = v
+					}
+				}
+			}
+		}
+		seen[string(op.Id())] = op
+	}
+	for _, op := range s.Operations {
+		if got, want := mustJSON(visibleExtra(op)), mustJSON(sortedPairs(wantExtra[string(op.Id())])); got != want {
+			fail("C10/metadata", fmt.Sprintf("operation %s carries the later metadata %s, the operations prescribe %s (a set-metadata only reaches an operation that precedes it, and never replaces a key)", op.Id().Human(), got, want), nil)
+			break
+		}
 	}
 }
